@@ -279,3 +279,6 @@ package corebgp
 //@   ensures [none_dropped]  forall j :: 0 <= j && j < len(caps) && caps[j].Code != 65 ==> 1 <= dst[j] && dst[j] < len(out) && out[dst[j]] == caps[j]
 //@   ensures [none_invented] forall k :: 1 <= k && k < len(out) ==> 0 <= src[k] && src[k] < len(caps) && out[k] == caps[src[k]] && caps[src[k]].Code != 65 && dst[src[k]] == k
 //@   ensures [order_preserved] forall k :: 1 <= k && k < len(out) - 1 ==> src[k] < src[k+1]
+
+//@ func Capability.Equal (c, d) returns (r)
+//@   ensures [same_code_and_value] r == (c.Code == d.Code && eqBytes(c.Value, d.Value))
